@@ -252,7 +252,7 @@ func schedCases(b *baseBlob, tier string) []schedCase {
 			{Repl: lm, Cache: "mem", Sem: 1, PB: 1, Split: 1},
 			{Repl: -1, Cache: "mem", Sem: 1, PB: 1, Split: 1},
 			{Repl: a3, Cache: "dir", Sem: 1, PB: 1, Split: 1},
-			{Repl: a3, Cache: "dira", Sem: 2, PB: 1, Split: 1},
+			{Repl: a3, Cache: "dira", Sem: 1, PB: 1, Split: 2},
 		}
 	}
 	out = append(out, schedCase{Repl: a3, Cache: "mem", Sem: 1, PB: 3, Split: 24})
